@@ -685,6 +685,10 @@ def k12(F, R):
                       "returns the other operand), `exp(-d).min(1.0)` changes the result for negative steps; either way the backend no longer agrees with scalar "
                       "arithmetic on special values")
     CL = ("min", "max", "clamp", "abs", "copysign", "signum", "rem_euclid")
+    # ... and none branches on the class of a float (`if !norm.is_normal() { return 0.0 }` turns a NaN / inf input into a regular result: the
+    # non-finite value was the only way the fault reached the energy test); the two finiteness predicates of the Math trait are what they are
+    CLASSIFY = ("is_nan", "is_finite", "is_infinite", "is_normal", "is_subnormal", "classify", "is_sign_negative", "is_sign_positive")
+    FINITE_PREDICATES = ("array_all_finite", "array_all_finite_and_nonzero")
     n = 0
     hits = []
     for b in sorted(F.hir_bodies(), key=lambda x: x.path):
@@ -700,9 +704,14 @@ def k12(F, R):
         for x in hir_walk(b.hir["value"]):
             if x.get("k") == "MethodCall" and x.get("method") in CL and ("f64" in str(x.get("callee")) or str(x.get("recv_ty")) in ("f64", "&f64")):
                 hits.append((b, x))
+            if x.get("k") == "MethodCall" and x.get("method") in CLASSIFY and b.fn_name not in FINITE_PREDICATES \
+                    and ("f64" in str(x.get("callee")) or str(x.get("recv_ty")) in ("f64", "&f64")):
+                hits.append((b, x))
     for (b, x) in hits:
         R.bad("C17-K12", "%s:%s" % (b.path, x["method"]), "%s @%s" % (b.path, loc(x["span"])), "`%s` applied to an f64 in a formula kernel: the result differs from the scalar formula "
-              "for NaN / negative / out-of-range operands" % x["method"])
+              "for NaN / negative / out-of-range operands" % x["method"] if x["method"] in CL else
+              "`%s` on an f64 in a formula kernel: the kernel treats special values apart instead of letting them propagate, so a non-finite input can "
+              "come out as a regular result" % x["method"])
     if not hits:
         R.ok("C17-K12", "scan", "math::cpu_math, math::util", "%d functions, no min / max / clamp / abs on an f64 outside the %d scale-update kernels" % (n, len(CLAMP_BY_SPEC)))
     if n < 20:
